@@ -459,3 +459,75 @@ type Deep6 struct {
 	Deep map[string][]map[string][]*[2]Leaf
 	Top  any
 }
+
+// ---- round 6: type GRAPHS for the history check (Recompose.tla, graph family)
+
+// GA and GB embed pointers to each other: the members of the one are promoted into the other; the walk along the
+// embedded pointers ends where the cycle closes.
+type GA struct {
+	*GB
+	A1 int
+	A2 string
+}
+
+// GB is the other half.
+type GB struct {
+	*GA
+	B1 int
+	B2 string
+}
+
+// HA, HB, HC: an embedding cycle through a third type.
+type HA struct {
+	*HB
+	Ha int
+}
+
+// HB embeds *HC.
+type HB struct {
+	*HC
+	Hb int
+}
+
+// HC embeds *HA.
+type HC struct {
+	*HA
+	Hc int
+}
+
+// MA and MB are mutually recursive through containers: MA has []*MB, MB has map[string]*MA.
+type MA struct {
+	Bs []*MB
+	N  int
+}
+
+// MB is the other half.
+type MB struct {
+	As map[string]*MA
+	S  string
+}
+
+// EI is an embedded part of EO (by value) and of EP (by pointer) and a target of its own; it has the same short name as
+// enctypes2.EI, which EQ embeds.
+type EI struct {
+	I1 int
+	I2 string
+}
+
+// EO embeds EI by value.
+type EO struct {
+	EI
+	O int
+}
+
+// EP embeds a pointer to EI.
+type EP struct {
+	*EI
+	P int
+}
+
+// EQ embeds the EI of the other package.
+type EQ struct {
+	enctypes2.EI
+	Q int
+}
